@@ -47,6 +47,8 @@ fn main() {
         "C05" => mc::checks::c05::run(rep),
         "C06" => mc::checks::c06::run(rep),
         "C07" => mc::checks::c07::run(rep),
+        "C13" => mc::checks::c13::run(rep),
+        "C14" => mc::checks::c14::run(rep),
         "C15" => mc::checks::c15::run(rep),
         "C16" => mc::checks::c16::run(rep),
         "C17" => mc::checks::c17::run(rep),
